@@ -133,7 +133,7 @@ func c08Enumerate(r *mc.Report, n int, lifes [][]string, shard, nshards int) {
 func init() {
 	mc.Register(&mc.Check{
 		Prop:        "C08",
-		Rule:        "all dependency DAGs on <=3 services (4 in thorough; quick covers 4 services with uniform lifetimes) x every subset of the non-root services left unregistered x all lifetime assignments x registration/dependency form per service {plain, keyed, group member, interface alias} (every per-service assignment for <=3 services, so that group members / keyed / aliased dependents with plain or keyed dependencies occur; uniform plus three mixed assignments for 4) x optional-ness {no edge, every edge, exactly the edges into unregistered services} x dependent form {constructor with In struct, positional constructor (also with every dependency declared twice, and declared twice as an optional field followed by a required field), void initializer, error-only initializer}; oracle: Build must succeed iff the model finds no lifetime conflict and no missing required dependency; after a successful Build every registered identity is resolved from a scope, its child and again and no resolution / scope creation may fail with 'service not found' (or fail at all when the model says valid). plus two-output (multiple-return / result-object) dependents x lifetimes x dependency registered or not x Remove of the first / second / both outputs x re-adding the first type. distinct = (size, edge forms, verdict, model verdict) classes. Rebuild after edit: every history to depth 5 (quick) / 6 (thorough) over {14 Add variants (singleton / transient / scoped consumers with optional, required, keyed, group and keyed-optional dependencies; singleton and scoped providers, keyed providers, group members, unrelated services), Remove x3, RemoveKeyed, Build (<=2)}: the verdict of every Build of the edited collection equals the verdict of a FRESH collection holding the surviving registrations (differential oracle), a successful Build hands no scoped instance to a singleton / transient and leaves no registered identity unresolvable.",
+		Rule:        "all dependency DAGs on <=3 services (4 in thorough; quick covers 4 services with uniform lifetimes) x every subset of the non-root services left unregistered x all lifetime assignments x registration/dependency form per service {plain, keyed, group member, interface alias} (every per-service assignment for <=3 services, so that group members / keyed / aliased dependents with plain or keyed dependencies occur; uniform plus three mixed assignments for 4) x optional-ness {no edge, every edge, exactly the edges into unregistered services} x dependent form {constructor with In struct, positional constructor (also with every dependency declared twice, and declared twice as an optional field followed by a required field), void initializer, error-only initializer}; oracle: Build must succeed iff the model finds no lifetime conflict and no missing required dependency; after a successful Build every registered identity is resolved from a scope, its child and again and no resolution / scope creation may fail with 'service not found' (or fail at all when the model says valid). plus two-output (multiple-return / result-object) dependents x lifetimes x dependency registered or not x Remove of the first / second / both outputs x re-adding the first type. plus dependencies on the built-in injectables (plain, keyed, keyed-optional, optional, group; one or two fields) for constructors and initializers of every lifetime. distinct = (size, edge forms, verdict, model verdict) classes. Rebuild after edit: every history to depth 5 (quick) / 6 (thorough) over {14 Add variants (singleton / transient / scoped consumers with optional, required, keyed, group and keyed-optional dependencies; singleton and scoped providers, keyed providers, group members, unrelated services), Remove x3, RemoveKeyed, Build (<=2)}: the verdict of every Build of the edited collection equals the verdict of a FRESH collection holding the surviving registrations (differential oracle), a successful Build hands no scoped instance to a singleton / transient and leaves no registered identity unresolvable.",
 		Assume:      []string{"built-in injectables are context.Context, Scope and Provider without a key"},
 		MinOutcomes: 6,
 		Jobs: func(tier string) []mc.Job {
